@@ -13,7 +13,7 @@ from genlib import *
 
 LEAN_MODULES = ["MpirProofs.Props.C02_inv"]
 THEOREMS = ["Mpir.InvDiv." + t for t in """
-isInvert_iff
+isInvert_iff reduceTop_exact estimate_exact estimate_bounds finalLoop_exact
 """.split()]
 PINS = [("mpn/generic/invert.c", "mpn_is_invert"), ("mpn/generic/invert.c", "mpn_invert"), ("mpn/generic/inv_div_qr_n.c", None)]
 TRUSTED = ["hand-written value-level model lean/Mpir/Model/InvDiv.lean of mpn_is_invert and mpn_inv_div_qr_n (limb areas as naturals "
@@ -21,7 +21,10 @@ TRUSTED = ["hand-written value-level model lean/Mpir/Model/InvDiv.lean of mpn_is
            "callee contracts inside that model: mpn_mul / mpn_mul_n = product, mpn_mulmod_Bexpp1_fft = canonical residue modulo B^m+1",
            "mpn_invert: only its documented contract is modelled (the unique X with A*X < B^(2n) <= A*(X+1)); the Newton iteration of "
            "invert.c is compared with that closed form on every run (differential only)"]
-ASSUMPTIONS = ["mpn_inv_div_qr_n with dn+1 >= FFT_MULMOD_2EXPP1_CUTOFF = 128 in the mulmod branch (mpir_fft_adjust_limbs) is not modelled",
+ASSUMPTIONS = ["the composition of the proved pieces (reduceTop_exact, estimate_exact, estimate_bounds, finalLoop_exact) into one theorem "
+               "inv_div_qr_n_exact for mpn_inv_div_qr_n is NOT yet proved (the glue proof hit a kernel recursion limit); the mulmod (B^m+1) branch "
+               "for dn > 64 is differential only; on every op the driver checks q, r against floor(n/d), n mod d (!modelspec)",
+               "mpn_inv_div_qr_n with dn+1 >= FFT_MULMOD_2EXPP1_CUTOFF = 128 in the mulmod branch (mpir_fft_adjust_limbs) is not modelled",
                "mpn_inv_div_qr, mpn_inv_divappr_q_n, mpn_inv_divappr_q, mpn_inv_div_q remain assumed contracts (exercised through mpn_tdiv_qr / mpn_tdiv_q only)"]
 RULE = ("inv_div_qr_n: dn in 1..10, 16, 33, 63..66, 100, 126; divisors all ones, 2^63*B^(dn-1) (+1), B^dn/2+B^lo-1, random, long runs; "
         "dividends q*D+r with q in {0,1,B^dn-1,B^dn,B^dn+1,2^k,random}, r in {0,D-1,random}, D*B^dn-1, D*B^dn, B^(2dn)-1; searched inputs for "
